@@ -155,7 +155,9 @@ def coq_graph(G):
     return '[%s]' % ';\n  '.join('(%d, %s)' % (n['id'], coq_node(n)) for n in G)
 
 
-def xml_of(G, rng):
+def xml_of(G, rng, elname=None):
+    """elname: decision id -> name of the decision ELEMENT where it differs from the name of the decision's variable (logic, requirements and results go by the variable)"""
+    elname = elname or {}
     parts = [XHEAD]
     nodes = list(G)
     rng.shuffle(nodes)                      # document order of the elements is irrelevant
@@ -164,7 +166,7 @@ def xml_of(G, rng):
         if k == 'input':
             parts.append('<inputData name="%s" id="e%d"><variable name="%s" typeRef="number"/></inputData>' % (nm(i), i, nm(i)))
         elif k == 'dec':
-            parts.append('<decision name="%s" id="e%d"><variable name="%s"/>' % (nm(i), i, nm(i)) +
+            parts.append('<decision name="%s" id="e%d"><variable name="%s"/>' % (elname.get(i, nm(i)), i, nm(i)) +
                          ''.join('<informationRequirement><requiredDecision href="#e%d"/></informationRequirement>' % r for r in n['rd']) +
                          ''.join('<informationRequirement><requiredInput href="#e%d"/></informationRequirement>' % r for r in n['ri']) +
                          ''.join('<knowledgeRequirement><requiredKnowledge href="#e%d"/></knowledgeRequirement>' % r for r in n['rk']) +
@@ -750,13 +752,16 @@ def run_graphs(ctx, graphs, tag='g'):
     for gi, G in enumerate(graphs):
         B = by_id(G)
         calls, idx = [], []
+        # in a third of the models some decision elements are named differently from their variables: a decision is invoked by its element name,
+        # everything that reads its value (requiring decisions, service outputs) goes by the variable
+        elname = {n['id']: 'E' + nm(n['id']) for n in G if n['kind'] == 'dec' and rng.random() < 0.5} if rng.random() < 0.33 else {}
         for n in G:
             if n['kind'] == 'input':
                 continue
             for label, d, base in input_sets(rng, G, B, n):
-                calls.append([nm(n['id']), ctx_text(d)])
+                calls.append([elname.get(n['id'], nm(n['id'])), ctx_text(d)])
                 idx.append((n['id'], label, d, base))
-        reqs.append({'xml': xml_of(G, rng), 'calls': calls})
+        reqs.append({'xml': xml_of(G, rng, elname), 'calls': calls})
         index.append(idx)
         order = order_of(G)
         fuel = len(G) + 1
